@@ -65,6 +65,24 @@ def add_constructor_contracts(world, marshal_assumed=True):
                 ('destination-valid', opt_in(s.destination, G.BUS)),
                 ('error-name-valid', opt_in(s.error_name, G.ERROR))]
 
+    def fields_set(*names):
+        """the constructor stores its arguments (what later readers / the wire see)"""
+        def f(cx):
+            s = cx.new(cx.args['self'])
+            out = []
+            for nm in names:
+                v = cx.args[nm]
+                fv = getattr(s, nm)
+                if isinstance(v, VNone):
+                    out.append(('stores:' + nm, fv.none))
+                else:
+                    out.append(('stores:' + nm, z3.And(z3.Not(fv.none), fv.val.term == v.term)))
+            return out
+        return f
+
+    def both(*fs):
+        return lambda cx: [c for f in fs for c in f(cx)]
+
     def fresh_msg(cx):
         # a message under construction carries nothing yet (class-level defaults are None)
         s = cx.old(cx.args['self'])
@@ -76,7 +94,7 @@ def add_constructor_contracts(world, marshal_assumed=True):
              {'self': Ref('MethodCallMessage'), 'path': STR, 'member': STR, 'interface': Opt(STR),
               'destination': Opt(STR), 'signature': Opt(STR), 'body': OPAQUE, 'expectReply': BOOL,
               'autoStart': BOOL, 'oobFDs': OPAQUE},
-             requires=fresh_msg, ensures=names_valid, modifies=mods, raises=anyexc, may_raise_any=True)
+             requires=fresh_msg, ensures=both(names_valid, fields_set('path', 'member', 'interface', 'destination')), modifies=mods, raises=anyexc, may_raise_any=True)
     contract(world, 'txdbus.message.MethodReturnMessage.__init__',
              {'self': Ref('MethodReturnMessage'), 'reply_serial': INT, 'body': OPAQUE,
               'destination': Opt(STR), 'signature': Opt(STR)},
@@ -88,7 +106,7 @@ def add_constructor_contracts(world, marshal_assumed=True):
     contract(world, 'txdbus.message.SignalMessage.__init__',
              {'self': Ref('SignalMessage'), 'path': STR, 'member': STR, 'interface': STR,
               'destination': Opt(STR), 'signature': Opt(STR), 'body': OPAQUE},
-             requires=fresh_msg, ensures=names_valid, modifies=mods, raises=anyexc, may_raise_any=True)
+             requires=fresh_msg, ensures=both(names_valid, fields_set('path', 'member', 'interface', 'destination')), modifies=mods, raises=anyexc, may_raise_any=True)
 
 
 CTORS = ['txdbus.message.MethodCallMessage.__init__', 'txdbus.message.MethodReturnMessage.__init__',
